@@ -325,6 +325,29 @@ impl<T: Debug + Eq + PartialEq + Clone + Default> TaggedLine<T> {
         }
     }
 //@end
+//@item src/render/text_renderer.rs :: impl TaggedLine :: fn from_string
+//@sub /-> TaggedLine<T>/ ==> -> (r: TaggedLine<T>)
+//@auto C01 C08
+    fn from_string(s: String, tag: &T) -> (r: TaggedLine<T>)
+        requires tag_ok::<T>(), //@w
+        ensures //@w
+            r.wf() && r.len == sw(s@), //@w @C02 #from_string_width
+            flat(r.v@) =~= flat_str(s@, *tag), //@w @C08 @C03 #from_string_content
+    {
+        let len = UnicodeWidthStr::width(s.as_str());
+        proof { //@w[
+            assert forall|v: Seq<TaggedLineElement<T>>| v.len() == 1 implies #[trigger] flat(v) =~= flat_elt(v[0]) by { assert(v =~= seq![v[0]]); lemma_flat_one(v[0]); }
+            assert forall|v: Seq<TaggedLineElement<T>>| v.len() == 1 implies #[trigger] cwid(v) == ew(v[0]) by { assert(v =~= seq![v[0]]); lemma_flat_one(v[0]); }
+        } //@w]
+        TaggedLine {
+            v: vec![TaggedLineElement::Str(TaggedString {
+                s,
+                tag: tag.clone(),
+            })],
+            len,
+        }
+    }
+//@end
 //@item src/render/text_renderer.rs :: impl TaggedLine :: fn is_empty
 //@sub /-> bool/ ==> -> (r: bool)
 //@sub /for elt in &self\.v/ ==> for elt in it: &self.v
@@ -786,14 +809,14 @@ impl<T: Clone + Eq + Debug + Default> WrappedBlock<T> {
                         s: " ".repeat(self.wslen),
                         tag: self.spacetag.take().unwrap(),
                     }));
-                    proof { //@w[
-                        lemma_ns_spaces(self.wslen as nat, sp_tag);
-                        lemma_content_append(self.text@, va, self.line.v@, flat_str(spaces(self.wslen as nat), sp_tag));
-                    } //@w]
+                    proof { //@w
+                        lemma_ns_spaces(self.wslen as nat, sp_tag); //@w
+                        lemma_content_append(self.text@, va, self.line.v@, flat_str(spaces(self.wslen as nat), sp_tag)); //@w
+                    } //@w
                     self.wslen = 0;
                 }
-
                 let ghost vb = self.line.v@; //@w
+
                 self.line.consume(&mut self.word);
                 proof { lemma_content_append(self.text@, vb, self.line.v@, flat(old(self).word.v@)); } //@w
                 html_trace!("linelen increased by wordlen to {}", self.line.len);
@@ -811,10 +834,10 @@ impl<T: Clone + Eq + Debug + Default> WrappedBlock<T> {
                         let ghost tagc = self.spacetag.unwrap(); //@w
                         self.line
                             .push_ws(self.wslen, &self.spacetag.take().unwrap());
-                        proof { //@w[
-                            lemma_ns_spaces(self.wslen as nat, tagc);
-                            lemma_content_append(self.text@, vc, self.line.v@, flat_str(spaces(self.wslen as nat), tagc));
-                        } //@w]
+                        proof { //@w
+                            lemma_ns_spaces(self.wslen as nat, tagc); //@w
+                            lemma_content_append(self.text@, vc, self.line.v@, flat_str(spaces(self.wslen as nat), tagc)); //@w
+                        } //@w
                         self.wslen = 0;
                     }
                 } else {
@@ -846,10 +869,10 @@ impl<T: Clone + Eq + Debug + Default> WrappedBlock<T> {
                     let to_copy = self.wslen.min(self.width);
                     let ghost vd = self.line.v@; //@w
                     self.line.push_ws(to_copy, self.spacetag.as_ref().unwrap());
-                    proof { //@w[
-                        lemma_ns_spaces(to_copy as nat, self.spacetag.unwrap());
-                        lemma_content_append(self.text@, vd, self.line.v@, flat_str(spaces(to_copy as nat), self.spacetag.unwrap()));
-                    } //@w]
+                    proof { //@w
+                        lemma_ns_spaces(to_copy as nat, self.spacetag.unwrap()); //@w
+                        lemma_content_append(self.text@, vd, self.line.v@, flat_str(spaces(to_copy as nat), self.spacetag.unwrap())); //@w
+                    } //@w
                     if to_copy == self.width {
                         self.flush_line();
                     }
@@ -1070,10 +1093,10 @@ impl<T: Clone + Eq + Debug + Default> WrappedBlock<T> {
                 } //@w
                 assert(content(self.text@, self.line.v@) =~= cpre + ns(flat_elt(items@[it.index@]))); //@w @C03 #hw_piece_kept
             } else {
-                // Keep zero-width markers (fragment starts) with the text
-                // which follows them.
                 let ghost v2 = self.line.v@; //@w
                 let ghost t2 = self.text@; //@w
+                // Keep zero-width markers (fragment starts) with the text
+                // which follows them.
                 self.line.push(element);
                 proof { lemma_content_append(t2, v2, self.line.v@, flat_elt(items@[it.index@])); } //@w
             }
